@@ -1,7 +1,7 @@
 (* C15 - the property theorems, nothing else.  Each is closed by [exact] of a lemma proved in Dsl/DslProofs.v.
    dsl_eval L g : L = per-loop iteration budget, g = remaining depth budget (300 - ScriptFrame::Depth). *)
 From Coq Require Import ZArith List String Bool.
-From Icv Require Import Dsl.DslDefs Dsl.DslOps Dsl.DslEval Dsl.DslProofs.
+From Icv Require Import Dsl.DslDefs Dsl.DslOps Dsl.DslEval Dsl.DslProofs Dsl.DslMono.
 Import ListNotations.
 Local Open Scope string_scope.
 
@@ -11,13 +11,12 @@ Theorem C15_deterministic : forall L g fr st e r1 r2,
 Proof. exact dsl_deterministic. Qed.
 Print Assumptions C15_deterministic.
 
-(* more loop budget never changes a result that is not "budget exhausted" - proved for the while loop with a fixed
-   sub-evaluator; the lifting through all of dsl_eval is NOT proved (hence _partial) *)
-Theorem C15_fuel_monotone_partial : forall ev L k fr st c b,
-  fst (dsl_while ev L fr st c b) <> DrAbort DaFuel ->
-  dsl_while ev (k + L) fr st c b = dsl_while ev L fr st c b.
-Proof. exact dsl_while_mono. Qed.
-Print Assumptions C15_fuel_monotone_partial.
+(* fuel monotonicity: more loop budget never changes a result that is not "loop budget exhausted" - for ALL programs,
+   frames, stores and depth budgets (lifted through every node, built-in and loop of dsl_eval in Dsl/DslMono.v) *)
+Theorem C15_fuel_monotone : forall L1 L2 g fr st e, (L1 <= L2)%nat ->
+  fst (dsl_eval L1 g fr st e) <> DrAbort DaFuel -> dsl_eval L2 g fr st e = dsl_eval L1 g fr st e.
+Proof. exact dsl_fuel_monotone. Qed.
+Print Assumptions C15_fuel_monotone.
 
 (* false && e, true || e, untaken branches: e is not evaluated, for every e including diverging/crashing ones *)
 Theorem C15_short_circuit :
@@ -85,23 +84,27 @@ Theorem C15_operator_laws :
 Proof. exact dsl_laws. Qed.
 Print Assumptions C15_operator_laws.
 
-(* the recorded findings: the faithful model leaves the property at exactly these places (explicit aborts) *)
+(* the remaining recorded finding that the model can express: the faithful model leaves the property exactly here (explicit abort) *)
 Theorem C15_cyclic_traversal_refuted :
   fst (dsl_run 400 dsl_prog_cyclic) = DrAbort DaCycle /\ fst (dsl_run 400 dsl_prog_cyclic_tostring) = DrAbort DaCycle.
 Proof. exact dsl_cyclic_refuted. Qed.
 Print Assumptions C15_cyclic_traversal_refuted.
 
-Theorem C15_array_minus_null_refuted : fst (dsl_run 400 dsl_prog_minus_null) = DrAbort DaCrashNull.
-Proof. exact dsl_minus_null_refuted. Qed.
-Print Assumptions C15_array_minus_null_refuted.
+(* the three operators/methods fixed in /repo (9eeddcb array - null, 150ea79 %, 2c1ef52 Array#map/filter/any/all):
+   the model follows the fixed code; the former crash witnesses are ordinary programs now *)
+Theorem C15_fixed_operators :
+  (forall st l, dsl_binop_eval st DbSub (DvArr l) DvEmpty = (PrVal (DvArr (List.length st)), (st ++ [DoArr (dsl_arr st l)])%list)) /\
+  (forall st x, dsl_binop_eval st DbMod (DvNum x 0) (DvNum 1 1) = (PrErr DkRange, st) \/
+                exists a, dsl_binop_eval st DbMod (DvNum x 0) (DvNum 1 1) = (PrAbort a, st)).
+Proof. exact dsl_fixed_ops. Qed.
+Print Assumptions C15_fixed_operators.
 
-Theorem C15_modulo_fraction_refuted : fst (dsl_run 400 dsl_prog_mod_fraction) = DrAbort DaCrashFpe.
-Proof. exact dsl_mod_fraction_refuted. Qed.
-Print Assumptions C15_modulo_fraction_refuted.
-
-Theorem C15_iterator_invalidation_refuted : fst (dsl_run 400 dsl_prog_iter) = DrAbort DaCrashIter.
-Proof. exact dsl_iter_refuted. Qed.
-Print Assumptions C15_iterator_invalidation_refuted.
+Theorem C15_fixed_witnesses :
+  dsl_observe (dsl_run 400 dsl_prog_minus_null) = ["[1]"; "{}"; "{}"; "{}"] /\
+  fst (dsl_run 400 dsl_prog_mod_fraction) = DrErr DkRange /\
+  dsl_observe (dsl_run 400 dsl_prog_iter) = ["[null,null,null]"; "{}"; "{""a"":[1,1,1]}"; "{}"].
+Proof. exact dsl_fixed_witnesses. Qed.
+Print Assumptions C15_fixed_witnesses.
 
 (* the executable oracle run over implementation traces: accepts every model trace; for a program the model follows
    to the end (no abort: in particular none of the recorded crash classes, visible here as a hypothesis) it accepts
